@@ -1,7 +1,7 @@
 import NrDaemon.Model.Trigger
 import NrDaemon.Gen.SwapTable
 import NrDaemon.Props.Tied
-import NrDaemon.Props.C12Zero
+import NrDaemon.Lemmas.HarvestReqs
 import NrDaemon.Props.C05
 /-!
   C12 — harvest cadence follows the negotiated periods and stops cleanly.
@@ -768,7 +768,7 @@ theorem C12_checkReportPeriod_tied (period dflt : Nat) :
   tied_checkReportPeriod period dflt
 
 
-/-! ## "A category whose limit is zero is never sent" on the processor model (proofs in `Props/C12Zero.lean`) -/
+/-! ## "A category whose limit is zero is never sent" on the processor model (proofs in `Lemmas/HarvestReqs.lean`) -/
 
 /-- **C12 (zero limit ⇒ never sent, per-category path).**  For every harvest content, tick mask and state: if the limit
 negotiated for an event category is zero, `harvestByType` makes no request of that category. -/
